@@ -289,6 +289,7 @@ class Host:
             except Exception as e:      # noqa
                 self.trace.append(('EXC', type(e).__name__, str(e)[:120]))
             self.trace.append(('VALS', tuple(self.engine.snapshot(o) for o in self.objs)))
+            self.event_check(i, op)
             if self.engine.stop():
                 self.amb_seg = sum(1 for e in self.trace if e[0] == 'OP') - 1      # index of the segment it happened in
                 break
@@ -301,6 +302,18 @@ class Host:
         except Exception as e:      # noqa
             self.trace.append(('EXC', type(e).__name__, str(e)[:120]))
         self.trace.append(('VALS', tuple(self.engine.snapshot(o) for o in self.objs)))
+
+    def event_check(self, i, op):
+        # The True of an Event parameter is transient: whatever the operation was (assignment, update, trigger, inside or outside
+        # a batch, failing or not) and whether or not the delivery history is still decided by the statement, no Event parameter
+        # reads True once the operation has returned (seeded change C04-m14).  Checked on the library's side only.
+        ev = getattr(self.engine, 'event_values', None)
+        if ev is None or self.case['prop'] != 'C04':
+            return
+        for oid, v in ev():
+            if v is not False:
+                self.engine.problems.append(('event_transient', f"after operation {i} ({op['op']}) the Event parameter {oid}.e reads {v!r}: "
+                                             f"the True of an Event parameter is transient"))
 
     def top(self, op):
         eng = self.engine
@@ -324,10 +337,10 @@ class Host:
         elif k == 'update':
             items, seen = [], set()
             for p, v in op['items']:
-                n = PN[p % np_]
+                n = 'e' if p == 'e' else PN[p % np_]
                 if n not in seen:
                     seen.add(n)
-                    items.append((n, self.vals.mk(v)))
+                    items.append((n, True if p == 'e' else self.vals.mk(v)))
             eng.update(o, items)
         elif k == 'update_bad' and op.get('nm'):
             eng.update_notmapping(o)        # an argument that is no mapping: the call fails as a whole, nothing else happens
@@ -454,6 +467,7 @@ class ModelEngine:
         self.m.slotset(oid, name, slot, v)
 
     def update(self, oid, items):
+        # (an Event parameter among the keys is decided by the model inside an open context too: held True until the call returns)
         self.m.update(oid, items)
 
     def trigger(self, oid, names):
@@ -505,6 +519,9 @@ class RealEngine:
 
     def stop(self):
         return False
+
+    def event_values(self):
+        return [(oid, getattr(o, 'e')) for oid, o in self.objs.items()]
 
     def snapshot(self, oid):
         o = self.objs[oid]
@@ -837,6 +854,8 @@ class DispatchWorld:
             elif k == 'update':
                 ops.append({'op': 'update', 'o': o, 'items': [[rng.randrange(cfg['n_params']), gen_value(rng, cfg['domain'])]
                                                              for _ in range(rng.randint(1, 3))]})
+                if cfg['event'] and rng.random() < 0.2:
+                    ops[-1]['items'].insert(rng.randint(0, len(ops[-1]['items'])), ['e', {'k': 'bool', 'x': True}])
             elif k == 'raise_set':
                 ops.append({'op': 'raise_set', 'o': o, 'p': rng.randrange(cfg['n_params']), 'v': gen_value(rng, cfg['domain']), 'q': rng.random() < 0.6})
             elif k == 'update_bad':
@@ -848,8 +867,8 @@ class DispatchWorld:
                 ops.append({'op': 'trigger_bad', 'o': o, 'ps': [rng.randrange(cfg['n_params']) for _ in range(rng.randint(0, 2))], 'at': rng.randint(0, 2)})
             elif k == 'trigger':
                 ps = [rng.randrange(cfg['n_params']) for _ in range(rng.randint(1, 2))]
-                if cfg['event'] and rng.random() < 0.3 and not depth[o]:
-                    ps.append('e')
+                if cfg['event'] and rng.random() < 0.3:
+                    ps.append('e')          # (inside a context the delivery history is undecided from here, the values are not)
                 ops.append({'op': 'trigger', 'o': o, 'ps': ps})
             elif k == 'event':
                 ops.append({'op': 'event', 'o': o})
